@@ -165,6 +165,8 @@ def check_program(fam, game, src_path, json_path, dump):
                     if re.fullmatch(r'[a-z]\w*', a): uses.append((p, a))
             m2 = re.match(r'(\w+)\s*=[^=]', t)
             if m2 and lookup_local(m2.group(1), j['span'][1]) and not re.search(r'[-+*/]', t): uses.append((0, m2.group(1)))
+            m3 = re.match(r'[$%]REG\[-?\d+\]\s*=\s*([A-Za-z_]\w*)$', t)
+            if m3 and lookup_local(m3.group(1), j['span'][1]): uses.append((1, m3.group(1)))      # `$REG[n] = local;`
             for p, a in uses:
                 loc = lookup_local(a, j['span'][1])
                 if loc is None or p >= len(dw): continue
